@@ -216,8 +216,8 @@ Definition run_c20 (l : list N) : list N :=
       | ow :: nkeys :: es =>
           let ess := take_col_entries (length cols) (N.to_nat nkeys) es in
           let srcs := map entries_src ess in
-          let overwrite := negb (ow =? 0) in
-          match migrate_driver (N.to_nat migration_commit_size) cols (length cols) overwrite srcs (src_db srcs) with
+          let overwrite := N.odd ow in            (* bit 0: overwrite; the rest: columns the destination has in excess *)
+          match migrate_driver (N.to_nat migration_commit_size) cols (length cols + N.to_nat (ow / 2))%nat overwrite srcs (src_db srcs) with
           | MgOk S' D' => 0 :: mig_out cols ess 0 (if overwrite then S' else D')
           | MgErr e => [1; e]
           end
